@@ -137,7 +137,9 @@ class LibevLoop(object):
 
     def add_timer(self, timer):
         self._timers.add_timer(timer)
-        self._notifier.send()  # wake up in case this timer is earlier
+        # wake up in case this timer is earlier; the loop thread ends when the last
+        # connection is closed, so it may have to be started again to serve the timer
+        self.maybe_start()
 
     def _update_timer(self):
         if not self._shutdown:
